@@ -38,13 +38,13 @@ Example zero_column_pivot :
   In 0 (gj_pivots NumQ 2 (all_true 2) (mkSt (qm [[0;1];[0;2]]%Z) (ident NumQ 2) (ones NumQ 2))).
 Proof. vm_compute. left. reflexivity. Qed.
 
-(* on floats the singular exits fire *)
+(* on floats the singular exits fire: the same error on both paths (HEAD, /repo 74e12ad) *)
 From Coq Require Import Floats.
 Example singular_float_dense :
   m_inverse NumF true InvPlain 2 (all_true 2) [[0;1];[0;2]]%float = ErrSingular.
 Proof. vm_compute. reflexivity. Qed.
 Example singular_float_generic :
-  m_inverse NumF false InvPlain 2 (all_true 2) [[1;2];[1;2]]%float = PanicSingular.
+  m_inverse NumF false InvPlain 2 (all_true 2) [[1;2];[1;2]]%float = ErrSingular.
 Proof. vm_compute. reflexivity. Qed.
 
 (* ---- two repaired defects (8a0efbb, 175f3f7): the witnesses as regression examples ----
